@@ -108,7 +108,10 @@ impl OutcomeTestGenerator for Outcome {
                         output.push_str(" (no-eol)\n")
                     }
                     generated.push_str(&output);
-                    generated.push_str(&formatln!("[{}]", *actual));
+                    // like everywhere else: an exit code of zero is not written out
+                    if *actual != 0 {
+                        generated.push_str(&formatln!("[{}]", *actual));
+                    }
                     Ok(generated)
                 }
                 TestCaseError::InternalError(err) => {
